@@ -162,13 +162,45 @@ def baAssign (fb M : Nat) (c : Cur) (widths : List Nat) (vals : Nat → Nat) (or
     (channel by channel, reading `right` from memory as it is at that moment), `right = tmp` -/
 def baSwap (fb M : Nat) (a b : Cur) (widths : List Nat) (order : List Nat) : Nat :=
   let tmp := fun k => baGet fb M a widths k
-  let M1 := order.foldl (fun M k => baSet fb M a widths k (baGet fb M b widths k)) M
+  let M1 := order.foldl (fun M k => baSet fb M a widths k (baGet fb M b widths k)) M   -- = baCopy
   baAssign fb M1 b widths tmp order
 
 /-- fill / copy through bit-aligned iterators: consecutive pixels starting at `c` receive `vals i k` -/
 def baWriteRun (fb M : Nat) (c : Cur) (widths : List Nat) (order : List Nat) : List (Nat → Nat) → Nat
   | [] => M
   | p :: ps => baWriteRun fb (baAssign fb M c widths p order) (itInc (bitSize widths) c) widths order ps
+
+/-! ### composed operations (as the harness performs them through the public API) -/
+
+/-- the value a proxy arithmetic operator stores (given the value read) -/
+def arithStore (num : Nat) (op : Arith) (old : Nat) (v : Int) : Nat := setArg num (arithResult num op old v)
+
+/-- `ref = other_ref` for two run-time first-bit references: `set_unsafe(ref.get())` -/
+def dCopy (fb M ptr first ptr2 first2 num : Nat) : Nat := dSet fb M ptr first num (dGet fb M ptr2 first2 num)
+
+/-- `swap_proxy` of two run-time first-bit channel references -/
+def dSwap (fb M ptr first ptr2 first2 num : Nat) : Nat :=
+  let tmp := valueMask num (dGet fb M ptr first num)
+  let M1 := dCopy fb M ptr first ptr2 first2 num
+  dSet fb M1 ptr2 first2 num tmp
+
+/-- `dst = src` between two compatible packed pixels (`static_copy`, semantic channel `s` = physical
+    `mapD[s]` of dst and `mapS[s]` of src).  Same first bit and width: `set_from_reference` (bits taken from
+    the source field); otherwise `set_unsafe(src.get())` -/
+def ppAssignFrom (W f : Nat) (widthsD mapD : List Nat) (Ws src : Nat) (widthsS mapS : List Nat) : Nat :=
+  (mapD.zip mapS).foldl (fun f (kd, ks) =>
+    let fd := sumK widthsD kd; let fs := sumK widthsS ks; let n := width widthsD kd
+    if fd = fs ∧ W = Ws then setFromRefF W f fd n src
+    else setF W f fd n (getF Ws src fs (width widthsS ks))) f
+
+/-- `refA = refB` for two bit-aligned references of one type (channels read from memory as it is) -/
+def baCopy (fb M : Nat) (a b : Cur) (widths : List Nat) (order : List Nat) : Nat :=
+  order.foldl (fun M k => baSet fb M a widths k (baGet fb M b widths k)) M
+
+/-- `std::copy(s, s + count, d)` through bit-aligned iterators -/
+def baCopyRun (fb M : Nat) (s d : Cur) (widths : List Nat) (order : List Nat) : Nat → Nat
+  | 0 => M
+  | n + 1 => baCopyRun fb (baCopy fb M d s widths order) (itInc (bitSize widths) s) (itInc (bitSize widths) d) widths order n
 
 /-! ### Spec: what the property demands, in terms of bits of the buffer -/
 
